@@ -553,10 +553,70 @@ func trimErr(e error) string {
 	return s
 }
 
+// exchangeNodeWrite: the remote stalls while the node writes. After an honest handshake the node sends one message
+// through Peer.WriteMsg under a short write deadline; the remote takes only part of the frame. The write has to come back
+// (with an error or not) and everything the node started for the connection has to end when the remote leaves.
+func (x *wireExec) exchangeNodeWrite(cs *Case, wit interface{}) {
+	cconn, sconn := net.Pipe()
+	sv := x.serve(sconn, nil)
+	cp := p2p.NewPeer(cconn)
+	if err := cp.DoHandshake(x.attKey.Priv, &x.nodeID); err != nil {
+		x.s.Inconclusive("honest client handshake failed: " + err.Error())
+		cconn.Close()
+		return
+	}
+	if e := <-sv.hsErr; e != nil {
+		x.s.Inconclusive("server side of an honest handshake failed: " + e.Error())
+		cconn.Close()
+		return
+	}
+	sv.hsErr <- nil
+	script := cs.Wire
+	// the remote takes RemoteReads bytes, then nothing more
+	took := make(chan struct{})
+	go func() {
+		defer close(took)
+		if script.RemoteReads > 0 {
+			_, _ = io.ReadFull(cconn, make([]byte, script.RemoteReads))
+		}
+	}()
+	payload := make([]byte, script.NodeWrite)
+	for i := range payload {
+		payload[i] = byte(i)
+	}
+	done := make(chan error, 1)
+	go func() {
+		sv.peer.SetWriteDeadline(60 * time.Millisecond)
+		done <- sv.peer.WriteMsg(p2p.MsgCode(probeCode), payload)
+	}()
+	x.s.Stat("b_node_writes_to_a_stalling_remote", 1)
+	select {
+	case err := <-done:
+		if err != nil {
+			x.s.Stat("b_node_write_returned_an_error", 1)
+			x.s.Seen("b_node_write_errors", trimErr(err))
+		} else {
+			x.s.Stat("b_node_write_completed", 1)
+		}
+	case <-time.After(wireWatchdog):
+		x.s.Violation("C15/node-unresponsive:b:write-to-stalled-remote-never-returns",
+			fmt.Sprintf("the remote took %d bytes of a frame and stopped reading; the node's WriteMsg (write deadline 60 ms) did not return within %v", script.RemoteReads, wireWatchdog), wit)
+	}
+	_ = cconn.Close()
+	<-took
+	if !(waitCh(sv.runDone, wireWatchdog) && waitCh(sv.consumed, wireWatchdog)) {
+		x.s.Violation("C15/node-unresponsive:b:connection-goroutines-do-not-end",
+			fmt.Sprintf("Peer.Run / reader still running %v after the remote closed a connection on which a write of the node had stalled", wireWatchdog), wit)
+	}
+	x.s.Stat("connections_b", 1)
+}
+
 func (x *wireExec) exec(cs Case) {
 	wit := map[string]interface{}{"case": cs}
 	if cs.S == "e" {
 		x.exchangeDial(&cs, wit)
+	} else if cs.S == "b" && cs.Wire != nil && cs.Wire.NodeWrite > 0 {
+		x.exchangeNodeWrite(&cs, wit)
 	} else {
 		x.exchange(&cs, wit)
 	}
